@@ -214,28 +214,28 @@ Proof.
   apply IH. rewrite set_nth_length. exact HL.
 Qed.
 
-Lemma scan_up_ok positions pws expected : forall qs pw mn mx,
+Lemma scan_up_ok eps positions pws expected : forall qs pw mn mx,
   Forall (fun q => q < length pws /\ q < length positions) qs ->
-  exists r, scan_up positions pws expected qs pw mn mx = Ok r.
+  exists r, scan_up eps positions pws expected qs pw mn mx = Ok r.
 Proof.
   induction qs as [|q qt IH]; intros pw mn mx HF; cbn [scan_up]; [eexists; reflexivity|].
   inversion HF as [|? ? [H1 H2] HT]; subst.
   destruct (nth_opt_lt pws q H1) as [w Hw]. destruct (nth_opt_lt positions q H2) as [sq Hsq].
   rewrite Hw, Hsq.
-  destruct (abs_diff_eq (f64_add pw w) expected); [eexists; reflexivity|].
+  destruct (abs_diff_eq eps (f64_add pw w) expected); [eexists; reflexivity|].
   destruct (flt expected (f64_add pw w)); [eexists; reflexivity|].
   destruct (flt (f64_add pw w) expected); apply IH; exact HT.
 Qed.
 
-Lemma scan_down_ok positions pws expected : forall qs pw mn mx,
+Lemma scan_down_ok eps positions pws expected : forall qs pw mn mx,
   Forall (fun q => S q < length pws /\ q < length positions) qs ->
-  exists r, scan_down positions pws expected qs pw mn mx = Ok r.
+  exists r, scan_down eps positions pws expected qs pw mn mx = Ok r.
 Proof.
   induction qs as [|q qt IH]; intros pw mn mx HF; cbn [scan_down]; [eexists; reflexivity|].
   inversion HF as [|? ? [H1 H2] HT]; subst.
   destruct (nth_opt_lt pws (S q) H1) as [w Hw]. destruct (nth_opt_lt positions q H2) as [sq Hsq].
   rewrite Hw, Hsq.
-  destruct (abs_diff_eq (f64_sub pw w) expected); [eexists; reflexivity|].
+  destruct (abs_diff_eq eps (f64_sub pw w) expected); [eexists; reflexivity|].
   destruct (flt (f64_sub pw w) expected); [eexists; reflexivity|].
   destruct (flt expected (f64_sub pw w)); apply IH; exact HT.
 Qed.
@@ -329,4 +329,78 @@ Proof.
   destruct (N.eq_dec (fst c) (fst b)) as [Eq2|Ne2]; [rewrite (E2 Eq2); symmetry; exact E|].
   assert ((snd a <= snd c)%N) by (apply L1; lia).
   assert ((snd c <= snd b)%N) by (apply L2; lia). lia.
+Qed.
+
+(* the definitions of the current source ARE the flag-parametric ones at the generated flag *)
+Lemma update_splits_is_g tol n positions pws total : forall ss p lefts,
+  update_splits tol n positions pws total p ss lefts
+  = update_splits_g Gen.SfcGen.hilbert_eps_scaled tol n positions pws total p ss lefts.
+Proof. induction ss as [|s st IH]; intros p lefts; cbn [update_splits update_splits_g]; [reflexivity|].
+  destruct lefts; [reflexivity|]. change (update_split tol n positions pws total p s s0) with
+    (update_split_g Gen.SfcGen.hilbert_eps_scaled tol n positions pws total p s s0).
+  destruct (update_split_g _ tol n positions pws total p s s0) as [[s' b]| | |]; cbn [bind]; try reflexivity.
+  rewrite IH. reflexivity.
+Qed.
+
+Lemma wq_loop_is_g tol n pts ws : forall fuel ss todo,
+  wq_loop tol fuel n pts ws ss todo = wq_loop_g Gen.SfcGen.hilbert_eps_scaled tol fuel n pts ws ss todo.
+Proof.
+  induction fuel as [|f IH]; intros ss todo; destruct todo; cbn [wq_loop wq_loop_g]; try reflexivity.
+  unfold wq_round, wq_round_g.
+  destruct (part_weights_of (map s_pos ss) pts ws (repeat fzero n)) as [pws| | |]; cbn [bind]; try reflexivity.
+  rewrite update_splits_is_g.
+  destruct (update_splits_g _ tol n (map s_pos ss) pws (fold_left f64_add pws fnegzero) 0 ss (prefix_sums fzero pws)) as [[ss' c]| | |];
+    cbn [bind]; try reflexivity. apply IH.
+Qed.
+
+Theorem weighted_quantiles_is_g tol fuel pts ws n :
+  weighted_quantiles tol fuel pts ws n = weighted_quantiles_g Gen.SfcGen.hilbert_eps_scaled tol fuel pts ws n.
+Proof.
+  unfold weighted_quantiles, weighted_quantiles_g. destruct n; [reflexivity|].
+  destruct (min_list pts); [|reflexivity]. destruct (max_list pts); [|reflexivity].
+  rewrite wq_loop_is_g. reflexivity.
+Qed.
+
+Theorem hilbert_partition_is_g tol maxo order fuel idx ws k p0 :
+  hilbert_partition tol maxo order fuel idx ws k p0
+  = hilbert_partition_g Gen.SfcGen.hilbert_eps_scaled tol maxo order fuel idx ws k p0.
+Proof.
+  unfold hilbert_partition, hilbert_partition_g. destruct (maxo <? order)%N; [reflexivity|].
+  destruct p0; [reflexivity|]. rewrite weighted_quantiles_is_g. reflexivity.
+Qed.
+
+(* ---- fuel is only a bound: a run that returns with some fuel returns the same
+   result with any larger amount (so "Ok with fuel F" on a case means that the
+   unbounded `while` loop terminates on it with that result) ---- *)
+Lemma wq_loop_fuel_mono tol n pts ws : forall fuel fuel' ss todo r,
+  wq_loop tol fuel n pts ws ss todo = Ok r -> fuel <= fuel' -> wq_loop tol fuel' n pts ws ss todo = Ok r.
+Proof.
+  induction fuel as [|f IH]; intros fuel' ss todo r H Hle; destruct todo as [|t]; cbn [wq_loop] in H.
+  - destruct fuel'; exact H.
+  - discriminate.
+  - destruct fuel'; exact H.
+  - destruct fuel' as [|f']; [lia|]. cbn [wq_loop].
+    destruct (wq_round tol n pts ws ss) as [[ss' c]| | |]; cbn [bind] in *; try discriminate.
+    apply IH; [exact H|lia].
+Qed.
+
+Theorem weighted_quantiles_fuel_mono tol fuel fuel' pts ws n r :
+  weighted_quantiles tol fuel pts ws n = Ok r -> fuel <= fuel' -> weighted_quantiles tol fuel' pts ws n = Ok r.
+Proof.
+  unfold weighted_quantiles. destruct n; [discriminate|].
+  destruct (min_list pts); [|discriminate]. destruct (max_list pts); [|discriminate].
+  intros H Hle.
+  destruct (wq_loop tol fuel (S n) pts ws (init_splits n0 n1 (S n)) (length (init_splits n0 n1 (S n)))) as [ss'| | |] eqn:E;
+    cbn [bind] in H; try discriminate.
+  rewrite (wq_loop_fuel_mono _ _ _ _ _ _ _ _ _ E Hle). exact H.
+Qed.
+
+Theorem hilbert_partition_fuel_mono tol maxo order fuel fuel' idx ws k p0 r :
+  hilbert_partition tol maxo order fuel idx ws k p0 = Ok r -> fuel <= fuel' ->
+  hilbert_partition tol maxo order fuel' idx ws k p0 = Ok r.
+Proof.
+  unfold hilbert_partition. destruct (maxo <? order)%N; [discriminate|]. destruct p0; [auto|].
+  intros H Hle.
+  destruct (weighted_quantiles tol fuel idx ws k) as [splits| | |] eqn:E; cbn [bind] in H; try discriminate.
+  rewrite (weighted_quantiles_fuel_mono _ _ _ _ _ _ _ E Hle). exact H.
 Qed.
